@@ -934,6 +934,11 @@ def export_model(model, path):
       Users should ensure that such Cells are called using ``()``
       in the original model's formulas.
 
+    * Formulas in which ``self`` is the name of a parameter or
+      of a local variable are not supported, because the formulas are
+      exported as methods whose first parameter is ``self``.
+      :obj:`ValueError` is raised for such formulas.
+
     Args:
         model: The Model object to be exported.
         path: The path where the generated Python package will be located.
